@@ -147,14 +147,23 @@ class PythonExpressionMapper(StringifyMapper):
         self._function_registry = function_registry
         self._numpy = numpy
 
-    def map_constant(self, expr, *args):
+    def map_constant(self, expr, enclosing_prec, *args):
         if isinstance(expr, (float, np.number)):
             if np.isinf(expr) or np.isnan(expr):
                 return "float('" + repr(expr) + "')"
         if isinstance(expr, np.generic):
             expr = expr.item()
 
-        return repr(expr)
+        result = repr(expr)
+
+        # A signed literal binds less tightly than e.g. '**': -2**2 == -4.
+        from pymbolic.mapper.stringifier import PREC_SUM
+        if (enclosing_prec > PREC_SUM
+                and ("-" in result or "+" in result)
+                and not (result.startswith("(") and result.endswith(")"))):
+            result = "(%s)" % result
+
+        return result
 
     def map_foreign(self, expr, *args):
         if expr is None:
